@@ -131,6 +131,37 @@ def emit(workdir, specs, out="extracted.c", types=True, prelude_after=None):
                 raise ExtractionError("enum with %s: %d definitions" % (sp["name"], len(ms)))
             parts.append("/* ---- enum (%s) verbatim ---- */\n%s" % (sp["file"], ms[0].group(0)))
             continue
+        if sp.get("kind") == "inline_method":
+            # inline member function of a multi-instance class (R10 with an explicit self): defined inside the class body
+            cb = X.class_body(X.strip_comments(cache[path]), re.escape(sp["class"]), sp["file"])
+            fn = X.find_inline_method(cb, None, sp["name"], sp["file"], sp.get("params_re"))
+            rules = X.Rules()
+            body = fn.body
+            body = rules.r1_scope(body, ["OPNMIDIplay", "OPN2", "Synth", "MIDIchannel", "NoteInfo", "OpnChannel"])
+            body = rules.r2_casts(body)
+            mem = info[sp["class"]]
+            locs = _locals_and_params(fn.params + " " + body)
+            pat = r"(?<![\w\.>])(?<!->)(%s)\b(?!\s*\()" % "|".join(re.escape(n) for n in sorted([m for m in mem if m not in locs], key=len, reverse=True))
+            body, n = re.subn(pat, r"self->\1", body)
+            rules._count("R10:self->", n)
+            # calls of sibling methods on the same object:  m(...) -> Class_m(self, ...)
+            for sib in sp.get("siblings", ()):
+                body, k = re.subn(r"(?<![\w\.>])%s\s*\(\s*\)" % re.escape(sib), "%s_%s(self)" % (sp["class"], sib), body)
+                rules._count("R10:sibling:" + sib, k)
+            for pat2, rep in sp.get("post", ()):
+                body, k = re.subn(pat2, rep, body)
+                rules._count("POST:" + pat2[:40], k)
+                if k == 0:
+                    raise ExtractionError("post rule did not fire in %s: %s" % (fn.name, pat2))
+            prm = X.params_to_c(fn.params, rules, [])
+            prm = "%s *self" % sp["class"] + ("" if prm == "void" else ", " + prm)
+            cname = "%s_%s" % (sp["class"], sp["name"])
+            parts.append("/* ---- %s::%s (inline, %s) ---- */\n%s%s %s(%s)\n%s\n" % (sp["class"], sp["name"], sp["file"], "static " if sp.get("static", True) else "", fn.ret, cname, prm, body))
+            fi = dict(function="%s::%s" % (sp["class"], sp["name"]), file=sp["file"], sha256_16=X.sha(fn.src), rules_fired={k: v for k, v in rules.fired.items() if v})
+            finfo.append(fi)
+            for k, v in rules.fired.items():
+                rules_all[k] = rules_all.get(k, 0) + v
+            continue
         fn = X.find_function(cache[path], sp["name"], sp["file"], sp.get("params_re"), sp.get("which"))
         rules = X.Rules()
         name, ret, params, macros, text, undefs = convert(fn, sp.get("cls"), info, rules, sp.get("drop", ()),
